@@ -220,22 +220,73 @@ pub fn ctor(which: u8, fam: u8, n: usize, lw: usize) {
     kani::cover!(true, "end of harness reached");
 }
 
-/// From<char> / to_lean_string for every char, both bools: inline, no request, right text.
-pub fn ctor_char_bool() {
+/// From<char> for every char: inline, no request, right text.
+pub fn ctor_char() {
     let c = any_char();
     let m = ModelStr::from_bytes_bounded(&c.bytes[..c.w], 5);
     let b = shim::snap();
     shim::forbid(true);
     let t = LeanString::from(c.c);
+    shim::forbid(false);
+    judge(&t, 1, b, &m);
+    kani::cover!(c.w == 4, "4-byte char");
+    kani::cover!(true, "end of harness reached");
+}
+
+/// loop-free comparison of a handle with up to 5 expected bytes
+fn expect_bytes(t: &LeanString, e: &[u8; 5], n: usize) {
+    assert!(t.len() == n, "[C15] to_lean_string length differs from to_string");
+    let b = t.as_bytes();
+    assert!(b.len() == n, "[C15] as_bytes().len()");
+    if n > 0 {
+        assert!(b[0] == e[0], "[C15] byte 0 differs from to_string");
+    }
+    if n > 1 {
+        assert!(b[1] == e[1], "[C15] byte 1 differs from to_string");
+    }
+    if n > 2 {
+        assert!(b[2] == e[2], "[C15] byte 2 differs from to_string");
+    }
+    if n > 3 {
+        assert!(b[3] == e[3], "[C15] byte 3 differs from to_string");
+    }
+    if n > 4 {
+        assert!(b[4] == e[4], "[C15] byte 4 differs from to_string");
+    }
+    assert!(!t.is_heap_allocated() && t.capacity() == 16, "[C09] short text is not inline");
+}
+
+/// char.to_lean_string() for every char (== encode_utf8), no request.
+pub fn char_to_ls() {
+    let c = any_char();
+    let b = shim::snap();
+    shim::forbid(true);
     let u = c.c.to_lean_string();
+    shim::forbid(false);
+    let e = [c.bytes[0], c.bytes[1], c.bytes[2], c.bytes[3], 0];
+    expect_bytes(&u, &e, c.w);
+    assert!(shim::snap().reqs == b.reqs, "[C09] char.to_lean_string() touched the heap");
+    let r = c.c.try_to_lean_string();
+    assert!(r.is_ok(), "[C15] try_to_lean_string(char) failed");
+    kani::cover!(c.w == 3, "3-byte char");
+    kani::cover!(true, "end of harness reached");
+}
+
+/// bool.to_lean_string() for both values.
+pub fn bool_to_ls() {
     let bo: bool = kani::any();
+    let b = shim::snap();
+    shim::forbid(true);
     let v = bo.to_lean_string();
     shim::forbid(false);
-    judge(&t, c.w, b, &m);
-    judge(&u, c.w, b, &m);
-    let mb = if bo { ModelStr::from_bytes_bounded(b"true", 6) } else { ModelStr::from_bytes_bounded(b"false", 6) };
-    judge(&v, mb.len, b, &mb);
-    kani::cover!(c.w == 4, "4-byte char");
+    if bo {
+        expect_bytes(&v, b"true\0", 4);
+    } else {
+        expect_bytes(&v, b"false", 5);
+    }
+    assert!(shim::snap().reqs == b.reqs, "[C09] bool.to_lean_string() touched the heap");
+    kani::cover!(bo, "true");
+    kani::cover!(!bo, "false");
     kani::cover!(true, "end of harness reached");
 }
 
@@ -772,5 +823,24 @@ pub fn scenario_sole_owner() {
     assert!(shim::live() == 0, "[MEM] leak");
     kani::cover!(third_alive, "copied out while a third clone read");
     kani::cover!(!third_alive, "sole owner wrote in place");
+    kani::cover!(true, "end of harness reached");
+}
+
+/// bool.to_lean_string() for one concrete value (the generic dispatch keeps every arm live for the
+/// solver; symbolic receivers of non-integer types do not finish).
+pub fn bool_to_ls_concrete(bo: bool) {
+    let v = bo.to_lean_string();
+    if bo {
+        expect_bytes(&v, b"true\0", 4);
+    } else {
+        expect_bytes(&v, b"false", 5);
+    }
+    kani::cover!(true, "end of harness reached");
+}
+pub fn char_to_ls_concrete(w: usize) {
+    let c = rep_char(w);
+    let u = c.c.to_lean_string();
+    let e = [c.bytes[0], c.bytes[1], c.bytes[2], c.bytes[3], 0];
+    expect_bytes(&u, &e, c.w);
     kani::cover!(true, "end of harness reached");
 }
